@@ -182,6 +182,12 @@ class ShapeV:
     def __init__(self, term):
         self.term = term
 
+    def sx_tuple(self, ex, node):
+        return self                      # tuple(shape) of a shape given as a tuple
+
+    def sx_isinstance(self, ex, name):
+        return name == "tuple"
+
     def sx_truth(self, ex):
         return ndim(self.term) != 0
 
@@ -970,7 +976,9 @@ class Poly:
         if attr == "allocation":
             return getattr(self, "allocation", None)
         if attr == "flags":
-            return {"OWNDATA": self.owndata}
+            if not hasattr(self, "f_contiguous"):
+                self.f_contiguous = z3.Bool(ex.ctx.fresh(f"f_contiguous_{self.base}"))
+            return {"OWNDATA": self.owndata, "F_CONTIGUOUS": self.f_contiguous}
         return V.BoundMethod(self, attr)
 
     def sx_len(self, ex):
